@@ -53,6 +53,12 @@ func c12framings() []c12fr {
 		{"Line", channel.Line, c12splitRef{'\n'}, 's', ""},
 		{"Split(NUL)", channel.Split(0), c12splitRef{0}, 's', ""},
 		{"Split(|)", channel.Split('|'), c12splitRef{'|'}, 's', ""},
+		// non-ASCII split bytes: the delimiter is a byte value, whereas the code
+		// point with the same number takes two bytes in UTF-8 (C2 80; C3 83,
+		// whose lead byte is the delimiter; C3 BF)
+		{"Split(0x80)", channel.Split(0x80), c12splitRef{0x80}, 's', ""},
+		{"Split(0xC3)", channel.Split(0xC3), c12splitRef{0xC3}, 's', ""},
+		{"Split(0xFF)", channel.Split(0xFF), c12splitRef{0xFF}, 's', ""},
 		{"RawJSON", channel.RawJSON, c12jsonRef{}, 'j', ""},
 	}
 }
@@ -368,12 +374,15 @@ func init() {
 	vt.Register(&vt.Check{
 		Prop:  "C12",
 		Level: "fault_enumeration",
-		Rule: "byte streams decoded by the real Recv of StrictHeader(m/t), Header(m/t), LSP, StrictHeader(\"\"), Line, Split(NUL), Split(|), RawJSON next to reference decoders written from the documentation: " +
+		Rule: "byte streams decoded by the real Recv of StrictHeader(m/t), Header(m/t), LSP, StrictHeader(\"\"), Line, Split(NUL), Split(|), Split(0x80), Split(0xC3), Split(0xFF), RawJSON next to reference decoders written from the documentation: " +
 			"(tok) every string of <= 5 (quick) / 6 (thorough) tokens over {Content-Length, content-length, CONTENT-TYPE, X-Other, ':', ' ', 0, 3, 12, -1, +3, CRLF, LF, abc, mime}, as is (whole+EOF-with-data, 1-byte reads) and followed by 'CRLF CRLF abc <valid message>'; " +
 			"(prod) products of field-name variants x separators x length values x content-type lines x line ends x blank line x bodies, each followed by a valid message; " +
 			"(line) every string over {a, b, split byte} of <= 10 (quick) / 12 (thorough) bytes x 4 chunkings; " +
+			"(uline) for the non-ASCII split bytes every string over {a, split byte, the two bytes that spell U+00<split> in UTF-8 (a byte equal to the split byte replaced by its neighbour)} of <= 8 (quick) / 10 (thorough) bytes x 4 chunkings; " +
+			"(splitbyte) Split(b) for every byte value b = 0x00..0xFF: streams of terminated and unterminated records made of all other byte values, the UTF-8 encoding of U+00<b> (alone, ending a record, ending the unterminated tail, repeated), each byte of that encoding, b-1 b+1 b^0x80, UTF-8 lead/continuation bytes, empty records, 3 seeded mixtures, " +
+			"at every truncation point x 4 chunkings, and records of 4094..4097 and 9001 bytes made of and ending in those bytes, truncated around every boundary; " +
 			"(json) every string of <= 5 / 7 tokens over { } [ ] \" a 1 , : space and of <= 4 / 5 value-level tokens x 3 chunkings; " +
-			"(longline) header lines and split records of 4084..4108, 8180..8204, 12276..12300, 20000, 70000 bytes (unknown field with a long value, also ending in text that looks like a Content-Length field); (absurd) Content-Length 2^31, 2^40, 2^46, 2^47, 2^62, 2^63-1, 2^63, 10^30, -1, +5, ... with a 3-byte body; " +
+			"(longline) header lines and split records of 4084..4108, 8180..8204, 12276..12300, 20000, 70000 bytes (for non-ASCII split bytes made of and ending in the bytes that spell U+00<split>; unknown field with a long value, also ending in text that looks like a Content-Length field); (absurd) Content-Length 2^31, 2^40, 2^46, 2^47, 2^62, 2^63-1, 2^63, 10^30, -1, +5, ... with a 3-byte body; " +
 			"(trunc) every truncation point of 50 valid multi-record streams per framing (sampled points for streams > 600 bytes); (mut) seeded 1-3 byte mutations of valid streams. " +
 			"evaluations = stream decodes. distinct_nontrivial = distinct (framing, stream) on which the reference decoder yields at least one record before the first error, " +
 			"or a final record / payload / JSON value cut off by end of stream (streams whose first line is already garbage are counted only in the counter inputs); " +
@@ -385,11 +394,13 @@ func init() {
 				"a '+' sign or '-0' as length, lines consisting of CR only, content types differing only in case/spacing, an empty Content-Type value on Header/LSP, a content type sent to a framing that expects none, " +
 				"a top-level JSON number ended by end of stream, a number with a malformed fraction/exponent, null returned as empty or as \"null\", everything after the first error",
 			"a final record cut off by end of stream may be returned whole with the error or not at all, never in part",
+			"the split byte is a byte value, not a character: for every b, also >= 0x80, records are exactly the runs between occurrences of the byte b; the UTF-8 encoding of U+00<b> is payload (unless it contains b) and is never stripped, the delimiter always is",
 			"64-bit int; Content-Length values that fit int64 but exceed the stream must produce an error without exhausting memory (bodies are 3 bytes)",
 		},
 		Require: map[string]int64{
 			"records_decoded": 100000, "required_errors_seen": 100000, "cut_off_final_records": 10000,
 			"cut_off_payloads": 1000, "content_type_errors_checked": 1000, "inputs_absurd": 30, "inputs_longline": 500, "inputs_trunc": 5000, "inputs_mut": 5000,
+			"split_bytes_covered": 256, "split_bytes_non_ascii": 128, "records_decoded_non_ascii_split": 100000, "cut_off_final_records_non_ascii_split": 20000,
 		},
 		Cases: c12cases,
 	})
@@ -478,6 +489,37 @@ func c12cases(e vt.Env, yield func(vt.Case) bool) {
 			if !yield(vt.Case{ID: id, Run: func(c *vt.Ctx) { c12strings(c, fr, "line", toks, prefix, 3, maxLine, c12modesAll) }}) {
 				return
 			}
+		}
+	}
+
+	// (uline) non-ASCII split bytes: strings over the split byte, the two bytes
+	// that spell U+00<split> in UTF-8 and a letter
+	maxULine := e.Pick(8, 10)
+	for _, fr := range frs {
+		if fr.kind != 's' || fr.splitByte() < 0x80 {
+			continue
+		}
+		fr := fr
+		sp := c11splitSpelling(fr.splitByte())
+		toks := []string{"a", string([]byte{fr.splitByte()}), string(sp[:1]), string(sp[1:])}
+		if !yield(vt.Case{ID: "uline/" + fr.name + "/short", Run: func(c *vt.Ctx) { c12strings(c, fr, "line", toks, nil, 0, 1, c12modesAll) }}) {
+			return
+		}
+		for p := 0; p < 16; p++ {
+			prefix := []int{p / 4, p % 4}
+			id := fmt.Sprintf("uline/%s/%v", fr.name, prefix)
+			if !yield(vt.Case{ID: id, Run: func(c *vt.Ctx) { c12strings(c, fr, "line", toks, prefix, 2, maxULine, c12modesAll) }}) {
+				return
+			}
+		}
+	}
+
+	// (splitbyte) every byte value as the delimiter
+	for b := 0; b < 256; b++ {
+		b := byte(b)
+		id := fmt.Sprintf("splitbyte/0x%02X", b)
+		if !yield(vt.Case{ID: id, Run: func(c *vt.Ctx) { c12splitByte(c, e, b, id) }}) {
+			return
 		}
 	}
 
@@ -580,6 +622,11 @@ func c12longline(c *vt.Ctx, fr c12fr) {
 		sp := string([]byte{fr.splitByte()})
 		for _, n := range sizes {
 			body := strings.Repeat("r", n)
+			if b := fr.splitByte(); b >= 0x80 {
+				// text-like: the record is made of, and ends in, the bytes that spell U+00<split>
+				u := string(c11splitSpelling(b))
+				body = strings.Repeat(u, n/2) + "r"[:n%2] + u
+			}
 			for _, stream := range []string{body + sp + "ab" + sp, "ab" + sp + body + sp + "cd", body, "x" + sp + body} {
 				if !a.input([]byte(stream), c12modesAll) {
 					return
@@ -794,11 +841,20 @@ func c12valid(fr c12fr, rng *rand.Rand, k int) (stream []byte, recs [][]byte) {
 		switch fr.kind {
 		case 's':
 			r = make([]byte, n)
+			alpha := "abc\r xyz{}\"0123"
+			if b := fr.splitByte(); b >= 0x80 {
+				// text with the bytes that spell U+00<split> in UTF-8 and the split byte's neighbours
+				sp := c11splitSpelling(b)
+				alpha = string([]byte{'a', 'b', 'c', '\r', ' ', sp[0], sp[1], sp[0], sp[1], '"', b - 1, b ^ 0x80, 0xC2, 0xC3, 0xBF})
+			}
 			for j := range r {
-				r[j] = "abc\r xyz{}\"0123"[rng.IntN(15)]
+				r[j] = alpha[rng.IntN(15)]
 				if r[j] == fr.splitByte() {
 					r[j] = '_'
 				}
+			}
+			if b := fr.splitByte(); b >= 0x80 && n >= 2 && rng.IntN(2) == 0 {
+				copy(r[n-2:], c11splitSpelling(b)) // ends in the spelling
 			}
 			stream = append(append(stream, r...), fr.splitByte())
 		case 'j':
